@@ -8,5 +8,5 @@ def run(chk, ctx):
     chk.cov['rule'] = ("random elections (incl. equal rankings, starved profiles) x meek/warren/meek-prf x fixed/guarded x precision x omega x batch; "
                        "scope: raw kf, residual, surplus, votes, quota of every action; oracle: votes+residual = ballots at the claimed snapshots, "
                        "kf ranges, non-negativity, converged exits")
-    cc.run(chk, ctx, 'values', ORACLES, 800, 60000, rules=cd.MEEKS, families=['small', 'tie', 'nearquota', 'chain', 'starved', 'mid'], tweak=tweak)
+    cc.run(chk, ctx, 'values', ORACLES, 800, 60000, rules=cd.MEEKS, families=['small', 'tie', 'nearquota', 'chain', 'starved', 'mid', 'hugemult'], tweak=tweak)
 def replay(chk, payload): return cc.replay(chk, payload, ORACLES)
